@@ -12,6 +12,7 @@ import (
 	"cosmossdk.io/math"
 	abci "github.com/cometbft/cometbft/abci/types"
 	sdk "github.com/cosmos/cosmos-sdk/types"
+	authtypes "github.com/cosmos/cosmos-sdk/x/auth/types"
 	banktypes "github.com/cosmos/cosmos-sdk/x/bank/types"
 
 	opchildtypes "github.com/initia-labs/OPinit/x/opchild/types"
@@ -42,6 +43,7 @@ type tcProfile struct {
 	Hooks     int
 	BadRcpt   int
 	Admin     bool // background admin traffic on both chains (C16 / C18)
+	Others    int  // weight of "another rollup's bridge on the same L1 does something" (create / deposit / propose / delete / claim / role change); also: up to two such bridges exist before this one
 	Reimport  int  // weight of "restart a chain from its exported genesis" (C16)
 	Replicas  bool // run every block on independent replicas too (C18)
 	Plans     bool // executor-change plans on L2 (several validators leave in one block)
@@ -139,14 +141,18 @@ func newTwoChain(r *core.Run, p *tcProfile) (*twoChain, *core.Violation) {
 	l1p := &l1Profile{Prop: p.Prop, MaxTx: 4, Periods: []time.Duration{10 * time.Second}, W: map[string]int{}, NonTriv: func(*l1World) bool { return true }}
 	tc.L1 = newL1World(r, l1p)
 	l2p := &l2Profile{Prop: p.Prop, MaxTx: 4, Hooks: p.Hooks, BadRcpt: p.BadRcpt, W: map[string]int{}, NonTriv: func(*l2World) bool { return true }}
-	tc.L2 = newL2WorldOpt(r, l2p, 1, tc.L1.denoms)
+	decoys := 0
+	if p.Others > 0 {
+		decoys = r.Intn(3)
+	}
+	tc.bridge = uint64(1 + decoys)
+	tc.L2 = newL2WorldOpt(r, l2p, tc.bridge, tc.L1.denoms)
 	tc.L2.l1Rcpts = tc.L1.ustr
 	tc.L2.p.Plans = p.Plans
 	if p.Replicas {
 		tc.L1.addReplicas(tc.L1.genesis)
 		tc.L2.addReplicas()
 	}
-	tc.bridge = 1
 	tc.simNow = tc.L1.now
 	if tc.L2.now.After(tc.simNow) {
 		tc.simNow = tc.L2.now
@@ -158,7 +164,20 @@ func newTwoChain(r *core.Run, p *tcProfile) (*twoChain, *core.Violation) {
 		}
 		tc.initialL1[d] = tot
 	}
-	// create the bridge (id 1) with dedicated proposer / challenger
+	// other rollups' bridges that exist before ours
+	for i := 0; i < decoys; i++ {
+		save := tc.L1.p.W
+		tc.L1.p.W = map[string]int{"create": 1}
+		dm, kind, desc := tc.L1.genOp(tc.L1.m.clone(), blockCtx{Height: tc.L1.n.Height() + 1, Time: tc.L1.now})
+		tc.L1.p.W = save
+		if v := tc.blockL1([]memTx{tc.mk(1, []sdk.Msg{dm}, kind, "another rollup: "+desc)}, time.Second, ""); v != nil {
+			return nil, v
+		}
+	}
+	if tc.L1.m.NextBridgeID != tc.bridge {
+		panic(core.Abort{Reason: "decoy-bridge-not-created"})
+	}
+	// create the bridge with dedicated proposer / challenger
 	tc.proposer, tc.challenger = tc.L1.ustr[0], tc.L1.ustr[1%len(tc.L1.ustr)]
 	tc.finPeriod = []time.Duration{2 * time.Second, 10 * time.Second, time.Hour}[r.Intn(3)]
 	cfg := ophosttypes.BridgeConfig{Challenger: tc.challenger, Proposer: tc.proposer, BatchInfo: ophosttypes.BatchInfo{Submitter: tc.proposer, ChainType: 1},
@@ -167,7 +186,7 @@ func newTwoChain(r *core.Run, p *tcProfile) (*twoChain, *core.Violation) {
 	if v := tc.blockL1([]memTx{tc.mk(1, []sdk.Msg{msg}, "create", "bridge for the simulated L2")}, time.Second, ""); v != nil {
 		return nil, v
 	}
-	if tc.L1.m.Bridges[1] == nil {
+	if tc.L1.m.Bridges[tc.bridge] == nil {
 		panic(core.Abort{Reason: "bridge-not-created"})
 	}
 	for i, e := range tc.L2.executors {
@@ -341,7 +360,7 @@ func (tc *twoChain) blockL1(txs []memTx, dt time.Duration, crash string) *core.V
 			tc.deps = append(tc.deps, depEvent{Seq: seq, From: a["from"], To: a["to"], L1Denom: a["l1_denom"], L2Denom: a["l2_denom"], Amount: amt, Data: data, L1Height: bc.Height})
 		}
 		for _, a := range node.EventAttrs(tr.Events, "propose_output") {
-			if a["bridge_id"] != "1" {
+			if a["bridge_id"] != strconv.FormatUint(tc.bridge, 10) {
 				continue
 			}
 			idx, _ := strconv.ParseUint(a["output_index"], 10, 64)
@@ -354,7 +373,7 @@ func (tc *twoChain) blockL1(txs []memTx, dt time.Duration, crash string) *core.V
 			}
 		}
 		for _, a := range node.EventAttrs(tr.Events, "delete_output") {
-			if a["bridge_id"] != "1" {
+			if a["bridge_id"] != strconv.FormatUint(tc.bridge, 10) {
 				continue
 			}
 			idx, _ := strconv.ParseUint(a["output_index"], 10, 64)
@@ -570,6 +589,9 @@ func (tc *twoChain) actUserWithdraw() {
 	to := tc.L1.pickUser()
 	if r.Chance(1, 8) {
 		to = strings.ToUpper(to) // an all-uppercase bech32 string is a valid address too
+	} else if r.Chance(1, 10) {
+		// an L1 module account (a valid address; the bank's send restrictions for user transfers do not apply to the bridge's payout)
+		to = authtypes.NewModuleAddress([]string{authtypes.FeeCollectorName, node.DistrModule, "gov"}[r.Intn(3)]).String()
 	}
 	msg := &opchildtypes.MsgInitiateTokenWithdrawal{Sender: h[0], To: to, Amount: sdk.Coin{Denom: h[1], Amount: amt}}
 	tc.r.Step("act.withdraw", "%s by %s to L1 %s", amt, short(h[0]), short(to))
@@ -698,7 +720,7 @@ func (tc *twoChain) actPropose() {
 	}
 	dup := r.Chance(1, 2)
 	t := prover.Build(hs, dup)
-	c := &commitment{Version: byte(r.Intn(2)), Storage: t.Root(), BlockHash: tc.L1.randHash(), Tree: t, Leaves: leaves}
+	c := &commitment{Version: []byte{0, 1, 0, 1, 2, 3, 0x7f, 0xff}[r.Intn(8)], Storage: t.Root(), BlockHash: tc.L1.randHash(), Tree: t, Leaves: leaves}
 	root := prover.OutputRoot(c.Version, c.Storage, c.BlockHash)
 	tc.L1.commits[root] = c
 	tc.proposed[root] = &tcOutput{Leaves: leaves, C: c}
@@ -871,7 +893,10 @@ func (tc *twoChain) actAdminL2() {
 // step performs one scheduler-chosen action.
 func (tc *twoChain) step() *core.Violation {
 	r := tc.r
-	wts := []int{10, 8, 4, 2, 10, 4, tc.p.Challenge, 5, 9, 9, 0, 0, 0, tc.p.Reimport}
+	wts := []int{10, 8, 4, 2, 10, 4, tc.p.Challenge, 5, 9, 9, 0, 0, 0, tc.p.Reimport, tc.p.Others}
+	if tc.draining {
+		wts[14] = 0
+	}
 	if tc.p.WWithdraw > 0 {
 		wts[1] = tc.p.WWithdraw
 	}
@@ -926,8 +951,38 @@ func (tc *twoChain) step() *core.Violation {
 		}
 		tc.mem2 = nil
 		return tc.L2.reimport()
+	case 14:
+		tc.actOtherRollups()
 	}
 	return nil
+}
+
+// actOtherRollups: the L1 hosts other rollups' bridges too.  Their operators and users create bridges,
+// deposit, propose and delete outputs, finalize (fabricated) withdrawals and rotate roles; none of it
+// may touch this rollup's bridge.
+func (tc *twoChain) actOtherRollups() {
+	w := tc.L1
+	save := w.p.W
+	w.p.W = map[string]int{"create": 1, "deposit": 4, "propose": 6, "delete": 3, "claim": 6, "updProposer": 1, "updChallenger": 1}
+	if len(w.m.Bridges) <= 1 {
+		w.p.W = map[string]int{"create": 1}
+	}
+	w.avoidBridge = tc.bridge
+	msg, kind, desc := w.genOp(w.m.clone(), blockCtx{Height: w.n.Height() + 1, Time: w.now})
+	w.avoidBridge = 0
+	w.p.W = save
+	switch x := msg.(type) {
+	case *ophosttypes.MsgInitiateTokenDeposit:
+		if x.BridgeId == tc.bridge {
+			return
+		}
+	case *ophosttypes.MsgFinalizeTokenWithdrawal:
+		if x.BridgeId == tc.bridge {
+			return
+		}
+	}
+	tc.r.Step("act.other-rollup", "%s %s", kind, desc)
+	tc.send(1, "others", []sdk.Msg{msg}, kind, desc)
 }
 
 func (tc *twoChain) produce(chain int) *core.Violation {
@@ -984,7 +1039,7 @@ func (tc *twoChain) drain() *core.Violation {
 	// the admin makes sure the executor actors are authorised (parameters may have been changed during the run)
 	b := tc.L1.m.Bridges[tc.bridge]
 	stuck := ""
-	for round := 0; round < 60; round++ {
+	for round, budget := 0, 60+2*len(tc.deps)+len(tc.wds); round < budget; round++ { // the budget grows with the backlog: an executor relays one deposit per round in the worst case
 		for _, e := range tc.execs {
 			tc.actExecutor(e)
 		}
